@@ -225,7 +225,8 @@ def mpc2system(mpc: dict, system) -> bool:
         bus_idx = int(data[0])
         gen_idx += 1
         vg = data[5]
-        status = int(data[7])
+        # GEN_STATUS: > 0 for machine in service, <= 0 for machine out of service
+        status = 1 if data[7] > 0 else 0
         mbase = base_mva
         pg = data[1] / mbase
         qg = data[2] / mbase
